@@ -100,6 +100,26 @@ CLAIMED.update({
         "DESIGN.md 5 C14", ""),
 })
 
+CLAIMED["C07"] = (
+    "Theorems (Properties/C07.v), for every signature (any number and order of positional-only / "
+    "positional-or-keyword / defaulted / *args / keyword-only / **kwargs parameters) and every call shape: the "
+    "binder binds declared parameters only (undeclared data is dropped); the binder itself raises TypeError only "
+    "for a positional-only parameter named as keyword (D15, known finding); a built-in name always yields the "
+    "library's value for the event being processed and every other name the user's value; trigger data never "
+    "carries a reserved name.  The full functional contract (which value each parameter receives, never a "
+    "TypeError except for a missing required parameter) is stated as the executable reference CPython call "
+    "binding py_call and is decided by the correspondence: EXHAUSTIVE over every signature `def` accepts with up "
+    "to 3 (quick) / 4 (thorough) parameters x 0..len+1 positional values x every keyword subset, plus random "
+    "signatures to 7 parameters, over functions / bound methods / partials / coroutines, real machine callbacks "
+    "with reserved names overridden by the user, and pairs of same-named callables bound one after the other "
+    "(signature cache).  Real def statements are bound by the real SignatureAdapter and really called; what they "
+    "received is compared in coqc with the model of bind_expected + BoundArguments + CPython binding.",
+    "Coq proof (binder frame + reserved-name layering) + exhaustive/random differential correspondence against the reference call semantics",
+    "DESIGN.md 5 C07",
+    "Partial: the slot-by-slot value contract is a checked executable specification, not yet a Coq theorem. "
+    "One genuine defect repaired (fix: e0ead44, keyword-only parameter lost after surplus positionals); known "
+    "findings D15 and D7 listed in known_findings.json.")
+
 PENDING_REASON = "check not built yet in this session (work in progress; see DESIGN.md 9 for the order of work)"
 
 ALL = [f"C{i:02d}" for i in range(1, 19)]
